@@ -39,13 +39,13 @@ def boundary_ho():
 
 class StrStream(c05.StrStream):
     n_quick = 700
-    n_thorough = 8000
+    n_thorough = 15000
     p_missing = (0.15, 0.3, 0.5)
 
 
 class HoStream(c05.HoStream):
     n_quick = 700
-    n_thorough = 8000
+    n_thorough = 15000
     p_missing = (0.15, 0.3, 0.5)
     p_src_nz = 0.3
 
@@ -60,7 +60,7 @@ class RawStream(FM.FormulaStream):
     name = "builder_calls"
     check_fn = "check_raw"
     n_quick = 500
-    n_thorough = 6000
+    n_thorough = 10000
 
     def gen(self, rng, tier):
         n = self.n_quick if tier == "quick" else self.n_thorough
